@@ -35,6 +35,11 @@ pub const GATE_MAX: Duration = Duration::from_secs(1);
 /// after all streams are done, wait at most this long for outstanding datagrams (loss is legal)
 pub const DGRAM_WAIT: Duration = Duration::from_millis(300);
 pub const SETUP_LIMIT: Duration = Duration::from_secs(10);
+/// if 40 x the smoothed round-trip estimate exceeds this, the run does not wait for the drain period
+/// (`closed()`, `Endpoint::shutdown`): the estimate is sub-millisecond unless the machine is overloaded
+pub const DRAIN_SKIP: Duration = Duration::from_secs(2);
+/// part C runs (payload 1200) have to complete within this time
+pub const PART_C_LIMIT: Duration = Duration::from_secs(3);
 /// first byte of the datagrams the close-point injection sends to fill the datagram send buffer
 const PROBE_DGRAM: u8 = 0xEE;
 
@@ -138,6 +143,11 @@ impl Notify {
 
 type DriverSlot = Arc<Mutex<Option<Waker>>>;
 
+thread_local! {
+    /// set while the harness polls something that is known to panic on the unchanged tree
+    pub static EXPECT_PANIC: Cell<bool> = const { Cell::new(false) };
+}
+
 struct PFlag {
     woken: AtomicBool,
     driver: DriverSlot,
@@ -161,6 +171,9 @@ impl Wake for PFlag {
 enum Expect {
     /// has to resolve after the close point while all handles are still alive
     AfterClose,
+    /// `Connection::closed`: resolves when the connection has drained (3 PTO after the close, a
+    /// function of the measured round-trip time); watched with the drain deadline
+    AfterDrain,
     /// `Endpoint::shutdown`: has to resolve once all handles have been dropped
     AfterRelease,
 }
@@ -252,6 +265,10 @@ pub struct Ctx {
     probes: RefCell<Vec<Probe>>,
     driver_slot: DriverSlot,
     marks: RefCell<Vec<(String, u64)>>,
+    /// larger of the two round-trip estimates at the close point
+    rtt_at_close: Cell<Duration>,
+    /// (class, what): defects outside the statement of C16 noticed on the way
+    side_findings: RefCell<Vec<(String, String)>>,
     /// streams obtained by probe futures (legitimate values): kept alive until the release phase,
     /// dropping them would finish / stop them and thereby change the scenario
     kept: Rc<RefCell<Vec<Box<dyn Any>>>>,
@@ -270,6 +287,7 @@ pub struct RunResult {
     pub wall_ms: u64,
     /// milliseconds since start at: setup done, close, everything resolved
     pub marks: Vec<(String, u64)>,
+    pub side_findings: Vec<(String, String)>,
 }
 
 fn short(s: String) -> String {
@@ -298,6 +316,8 @@ impl Ctx {
             probes: Default::default(),
             driver_slot: Default::default(),
             marks: Default::default(),
+            rtt_at_close: Cell::new(Duration::ZERO),
+            side_findings: Default::default(),
             kept: Default::default(),
         }
     }
@@ -311,7 +331,12 @@ impl Ctx {
     }
 
     fn scenario(&self) -> &'static str {
-        if self.spec.close.is_some() { "close" } else { "grid" }
+        match (self.spec.pre, self.spec.close.is_some()) {
+            (Pre::ClosedDropped, _) => "closed-future-dropped",
+            (Pre::ClosedTwice, _) => "closed-future-twice",
+            (_, true) => "close",
+            (_, false) => "grid",
+        }
     }
 
     fn conn(&self, side: Side) -> Connection {
@@ -410,6 +435,8 @@ impl Ctx {
     fn deadline(&self) -> Instant {
         match self.closed_at.get() {
             Some(t) => t + WATCHDOG,
+            // part C runs are tiny (payload <= 1200): a short limit keeps a stranded run cheap
+            None if self.spec.pre != Pre::Nothing => self.start + PART_C_LIMIT,
             None => self.start + RUN_LIMIT,
         }
     }
@@ -448,24 +475,41 @@ impl Ctx {
     fn describe_hang(&self, phase: &str) -> (String, String) {
         let mut kinds = BTreeSet::new();
         let mut lines = Vec::new();
+        if self.spec.pre == Pre::ClosedDropped {
+            lines.push("both sides created a Connection::closed() future, polled it once and dropped it before the scenario (dropping it cancels the connection's worker task: nothing is transmitted afterwards)".to_string());
+        }
         for t in self.tasks.borrow().iter().filter(|t| !t.done) {
             let side = if t.name.starts_with("cli") { Side::Client } else { Side::Server };
             kinds.insert(format!("{}.task.{}", self.rel(side), t.opkind));
             lines.push(format!("task {} pending in {} {}", t.name, t.opkind, t.detail));
         }
-        for p in self.probes.borrow().iter().filter(|p| p.result.is_none()) {
-            if phase == "after-close" && p.expect != Expect::AfterClose {
+        for p in self.probes.borrow_mut().iter_mut().filter(|p| p.result.is_none()) {
+            let skip = match phase {
+                "after-close" => p.expect != Expect::AfterClose,
+                "drain" => p.expect == Expect::AfterRelease,
+                _ => false,
+            };
+            if skip {
                 continue;
             }
             kinds.insert(format!("{}.{}", self.rel(p.side), p.kind));
-            lines.push(format!("pending {} future on {} ({} polls, woken={})", p.kind, p.side.name(), p.polls, p.flag.woken.load(Ordering::SeqCst)));
+            let (polls, woken) = (p.polls, p.flag.woken.load(Ordering::SeqCst));
+            // diagnosis only (the verdict is already "not woken within the watchdog"): does the
+            // future resolve when it is polled again without having been woken?
+            p.poll_now();
+            let diag = match &p.result {
+                Some(r) => format!("a poll without wake-up now yields {r}: the wake-up was lost"),
+                None => "still pending when polled again: the awaited condition has not occurred".to_string(),
+            };
+            lines.push(format!("pending {} future on {} ({polls} polls, woken={woken}; {diag})", p.kind, p.side.name()));
         }
         for side in Side::BOTH {
             if let Some(c) = self.sides[side.idx()].conn.borrow().as_ref() {
                 let st = c.stats();
                 lines.push(format!(
-                    "[{} stats: udp tx {} rx {} datagrams, lost packets {}, congestion events {}, close reason {:?}]",
+                    "[{} stats: rtt {:?}, udp tx {} rx {} datagrams, lost packets {}, congestion events {}, close reason {:?}]",
                     side.name(),
+                    c.rtt(),
                     st.udp_tx.datagrams,
                     st.udp_rx.datagrams,
                     st.path.lost_packets,
@@ -475,6 +519,10 @@ impl Ctx {
             }
         }
         let ck = self.spec.close.map(|c| c.kind.name()).unwrap_or("none");
+        if self.spec.pre != Pre::Nothing {
+            kinds.clear();
+            kinds.insert(self.row().class());
+        }
         let key = format!(
             "{}:never-stranded:{}:{}:{}",
             self.scenario(),
@@ -603,7 +651,8 @@ async fn write_flow(ctx: Rc<Ctx>, tid: usize, side: Side, mut send: SendStream) 
         match send.stopped().await {
             Ok(None) => ctx.event(&format!("{label}:stopped->None")),
             Ok(Some(code)) => {
-                if !ctx.is_closed() {
+                // (a reader that found a problem drops its stream, which stops it: secondary)
+                if !ctx.is_closed() && ctx.problems.borrow().is_empty() {
                     ctx.problem("stream-bytes", "stopped-by-peer", format!("{}: stopped() on stream {sid} yielded stop code {code} although the reader never stops", row.label()));
                 }
             }
@@ -1038,6 +1087,7 @@ impl Ctx {
         };
         for side in Side::BOTH {
             let Some(conn) = self.sides[side.idx()].conn.borrow().clone() else { continue };
+            self.rtt_at_close.set(self.rtt_at_close.get().max(conn.rtt()));
             let mut ps = self.sides[side.idx()].ps.borrow_mut().take().unwrap_or_default();
             // open_*_wait: exhaust the stream limit first, so that the future is pending
             for bi in [false, true] {
@@ -1124,7 +1174,7 @@ impl Ctx {
             }
             {
                 let c = conn.clone();
-                add(side, "closed", Expect::AfterClose, Box::pin(async move { short(format!("{:?}", c.closed().await)) }));
+                add(side, "closed", Expect::AfterDrain, Box::pin(async move { short(format!("{:?}", c.closed().await)) }));
             }
         }
         // the close itself
@@ -1183,7 +1233,19 @@ impl Ctx {
                     for p in ps.iter_mut() {
                         if p.result.is_none() && p.flag.woken.swap(false, Ordering::SeqCst) {
                             p.poll_now();
-                            changed |= p.result.is_some();
+                            if p.result.is_some() {
+                                changed = true;
+                                let ms = me.closed_at.get().map(|t| t.elapsed().as_millis()).unwrap_or(0);
+                                let bucket = match ms {
+                                    0..=50 => "le50ms",
+                                    51..=200 => "le200ms",
+                                    201..=1000 => "le1s",
+                                    1001..=3000 => "le3s",
+                                    _ => "gt3s",
+                                };
+                                let class = if p.kind == "closed" || p.kind == "shutdown" { "drain" } else { "wake" };
+                                me.count(&format!("latency_after_close:{class}:{bucket}"));
+                            }
                         }
                     }
                 }
@@ -1244,6 +1306,7 @@ fn finish_result(ctx: &Rc<Ctx>, events: u64, hang: Option<(String, String)>) -> 
         log_tail: ctx.log.borrow().iter().cloned().collect(),
         wall_ms: ctx.start.elapsed().as_millis() as u64,
         marks: ctx.marks.borrow().clone(),
+        side_findings: ctx.side_findings.borrow().clone(),
     }
 }
 
@@ -1274,6 +1337,38 @@ async fn run_async(spec: RunSpec) -> RunResult {
         }
     }
     ctx.mark("setup");
+    // part C: the program's use of `Connection::closed()`
+    let mut held_closed: Vec<Probe> = Vec::new();
+    if spec.pre != Pre::Nothing {
+        for side in Side::BOTH {
+            let n = if spec.pre == Pre::ClosedTwice { 2 } else { 1 };
+            for i in 0..n {
+                let c = ctx.conn(side);
+                let mut p = Probe::new(side, "closed", Expect::AfterDrain, &ctx.driver_slot, Box::pin(async move { short(format!("{:?}", c.closed().await)) }));
+                EXPECT_PANIC.with(|e| e.set(true));
+                let polled = vcore::catch(|| p.poll_now());
+                EXPECT_PANIC.with(|e| e.set(false));
+                match polled {
+                    Ok(()) => {}
+                    Err(msg) => {
+                        // not part of C16's statement (nothing is stranded, the program is told
+                        // at once): recorded as a side finding, not as a violation
+                        ctx.side_findings.borrow_mut().push((
+                            "closed-future-twice:panic".to_string(),
+                            format!("a second Connection::closed() future polled while the first one is pending panics (future #{i} on {}): {}", side.name(), short(msg)),
+                        ));
+                        return finish_result(&ctx, 0, None);
+                    }
+                }
+                if let Some(r) = &p.result {
+                    ctx.problem("closed-future", "resolved-early", format!("{}: closed() on {} resolved with {r} although nothing was closed", ctx.row().label(), side.name()));
+                }
+                if spec.pre == Pre::ClosedTwice {
+                    held_closed.push(p);
+                } // else: dropped here, still pending
+            }
+        }
+    }
     ctx.armed.set(true);
     if let Some(c) = spec.close
         && c.k == 0
@@ -1317,6 +1412,36 @@ async fn run_async(spec: RunSpec) -> RunResult {
     }
     ctx.mark("resolved");
     if spec.close.is_some() {
+        // `closed()` resolves when the connection has drained: 3 PTO after the close, where the
+        // PTO follows the measured round-trip time and its variance; one late acknowledgement on
+        // an overloaded machine inflates it (3 PTO <= 27 x smoothed rtt + 75 ms in the worst
+        // case), so the deadline follows the current estimate
+        loop {
+            for side in Side::BOTH {
+                if let Some(c) = ctx.sides[side.idx()].conn.borrow().as_ref() {
+                    ctx.rtt_at_close.set(ctx.rtt_at_close.get().max(c.rtt()));
+                }
+            }
+            if ctx.rtt_at_close.get() * 40 > DRAIN_SKIP {
+                // overloaded machine: the drain period is many seconds of pure waiting; the wake-up
+                // oracle (every pending stream / datagram / open / accept future) has been checked
+                ctx.count("drain_wait_skipped_inflated_rtt");
+                ctx.mark("drain-skipped");
+                return finish_result(&ctx, events, None);
+            }
+            let drain_deadline = ctx.closed_at.get().unwrap() + WATCHDOG + ctx.rtt_at_close.get() * 40;
+            let slice = drain_deadline.min(Instant::now() + Duration::from_millis(500));
+            if ctx.notify.wait_for(slice, || ctx.probes_resolved(Expect::AfterDrain)).await {
+                break;
+            }
+            if Instant::now() >= drain_deadline {
+                let h = ctx.describe_hang("drain");
+                return finish_result(&ctx, events, Some(h));
+            }
+        }
+        ctx.mark("drained");
+    }
+    if spec.close.is_some() {
         // phase 2: release every handle, then both endpoints have to shut down
         for side in Side::BOTH {
             ctx.sides[side.idx()].conn.borrow_mut().take();
@@ -1351,6 +1476,7 @@ async fn run_async(spec: RunSpec) -> RunResult {
         }
     }
     ctx.mark("released");
+    drop(held_closed);
     finish_result(&ctx, events, None)
 }
 
